@@ -24,8 +24,10 @@ run "to_json drops the source of quantities (C13)" efootprint/abstract_modeling_
 
         if False:' C13
 run "negative values accepted (C14)" efootprint/abstract_modeling_classes/modeling_object.py '                if input_value.magnitude < 0 and name not in self.attributes_that_can_have_negative_values():' '                if False:' C14
-run "pop does not detach the popped element (C16)" efootprint/abstract_modeling_classes/list_linked_to_modeling_obj.py '        value = super().pop(index)
-        value.set_modeling_obj_container(None, None)' '        value = super().pop(index)' C16
+run "a list operation no longer detaches the list it replaces before the update (C16)" efootprint/abstract_modeling_classes/list_linked_to_modeling_obj.py '        self.set_modeling_obj_container(None, None)
+        try:
+            ModelingUpdate([[previous_list, updated_list]])' '        try:
+            ModelingUpdate([[previous_list, updated_list]])' C16 C01
 run "bitrate without refresh rate (C17)" efootprint/builders/services/video_streaming.py 'self.dynamic_bitrate = (pixel_count * self.service.bits_per_pixel * self.refresh_rate' 'self.dynamic_bitrate = (pixel_count * self.service.bits_per_pixel * self.refresh_rate / self.refresh_rate * self.refresh_rate.__class__(30 * self.refresh_rate.value.units, "x")' C17
 run "network sums usage patterns in id order and stops at the first empty one (C19)" efootprint/core/hardware/network.py '        for up in self.usage_patterns:
             up_network_consumption' '        for up in sorted(self.usage_patterns, key=lambda x: x.id)[:max(1, len(self.usage_patterns) - (1 if len(self.usage_patterns) > 2 else 0))]:
